@@ -168,6 +168,36 @@ fn eval_inner(target: &str, input: &str) -> Option<String> {
             }
             None
         }
+        "html_fold" => {
+            // the escapers must work on what the normalizer returns: fullwidth < & > " ' are folded onto ASCII (as NFKC does)
+            struct Fold;
+            impl xot::output::Normalizer for Fold {
+                fn normalize<'a>(&self, content: std::borrow::Cow<'a, str>) -> std::borrow::Cow<'a, str> {
+                    if !content.chars().any(|c| ('\u{ff01}'..='\u{ff5e}').contains(&c)) { return content; }
+                    content.chars().map(|c| if ('\u{ff01}'..='\u{ff5e}').contains(&c) { char::from_u32(c as u32 - 0xfee0).unwrap() } else { c }).collect::<String>().into()
+                }
+            }
+            let mut xot = Xot::new();
+            let p = xot.add_name("p"); let title = xot.add_name("title");
+            let el = xot.new_element(p);
+            xot.attributes_mut(el).insert(title, input.to_string());
+            let t = xot.new_text(input); xot.append(el, t).ok()?;
+            let s = xot.html5().serialize_string_with_normalizer(Default::default(), el, Fold).ok()?;
+            let rest = s.strip_prefix("<!DOCTYPE html><p title=\"")?;
+            let close = rest.find("\">")?;
+            let (attr, body) = (&rest[..close], rest[close + 2..].strip_suffix("</p>")?);
+            if attr.contains('"') { return Some(format!("with a folding normalizer: raw '\"' in the attribute value of {:?}", s)); }
+            for (what, part, allow_lt) in [("attribute value", attr, true), ("text", body, false)] {
+                if !allow_lt && part.contains('<') { return Some(format!("with a folding normalizer: raw '<' in the {} of {:?}", what, s)); }
+                let mut r = part;
+                while let Some(i) = r.find('&') {
+                    let tail = &r[i..];
+                    if !(tail.starts_with("&amp;") || tail.starts_with("&lt;") || tail.starts_with("&gt;") || tail.starts_with("&nbsp;") || tail.starts_with("&quot;") || tail.starts_with("&apos;") || tail.starts_with("&#")) { return Some(format!("with a folding normalizer: raw '&' in the {} of {:?}", what, s)); }
+                    r = &r[i + 1..];
+                }
+            }
+            None
+        }
         "html_text" => {
             if input.is_empty() {
                 return None;
@@ -251,22 +281,34 @@ fn eval_inner(target: &str, input: &str) -> Option<String> {
         }
         // xml:id normalisation: value -> tokens joined by one space
         "xml_id" => {
-            if input.contains(|c| c == '<' || c == '&' || c == '"') {
+            if input.contains(|c| c == '<' || c == '"') {
                 return None;
             }
-            // literal TAB is turned into a space by attribute-value normalisation before xml:id normalisation
-            let norm = input.replace('\t', " ");
-            let expected: Vec<&str> = norm.split(' ').filter(|t| !t.is_empty()).collect();
+            // input: literal characters, with T / N / R standing for the references &#9; / &#xA; / &#xD;
+            if input.contains('&') { return None; }
+            let mut written = String::new(); let mut value = String::new();
+            for c in input.chars() { match c {
+                'T' => { written.push_str("&#9;"); value.push('\t'); }
+                'N' => { written.push_str("&#xA;"); value.push('\n'); }
+                'R' => { written.push_str("&#xD;"); value.push('\r'); }
+                // literal TAB (LF, CR) is turned into a space by attribute-value normalisation before xml:id normalisation
+                '\t' | '\n' | '\r' => { written.push(c); value.push(' '); }
+                c => { written.push(c); value.push(c); } } }
+            // xml:id normalisation: leading / trailing spaces go, runs of spaces collapse; nothing else is whitespace here
+            let expected: Vec<&str> = value.split(' ').filter(|t| !t.is_empty()).collect();
             let expected = expected.join(" ");
             if expected.is_empty() {
                 return None;
             }
-            let doc = format!("<a xml:id=\"{}\"/>", input);
+            let doc = format!("<a xml:id=\"{}\"/>", written);
             let mut xot = Xot::new();
             let root = xot.parse(&doc).ok()?;
+            let el = xot.document_element(root).ok()?;
+            let stored = xot.attributes(el).get(xot.xml_id_name()).cloned();
+            if stored.as_deref() != Some(expected.as_str()) { return Some(format!("{:?}: the xml:id value is stored as {:?}, normalisation gives {:?}", doc, stored, expected)); }
             match xot.xml_id_node(root, &expected) {
                 Some(_) => None,
-                None => Some(format!("{:?}: xml_id_node(\"{}\") finds nothing", doc, expected)),
+                None => Some(format!("{:?}: xml_id_node({:?}) finds nothing", doc, expected)),
             }
         }
         "default_ns" => c10_default_ns_witness(),
@@ -289,6 +331,7 @@ fn eval_inner(target: &str, input: &str) -> Option<String> {
         "ns_scope" => nsscope::check(input),
         "bytes_enc" => c02_bytes_enc(input),
         "err_paths" => c06_err_paths(input),
+        "detached_names" => c09_detached_names(input),
         "line_ends" => bounded::line_ends(input),
         "level_order" => bounded::level_order(input),
         "tree_ops" => {
@@ -387,6 +430,7 @@ fn inputs(target: &str, large: bool) -> Vec<String> {
         "char_ref" => bounded::ref_strings(large),
         "wf_reject" => bounded::wf_inputs(),
         "ns_scope" => nsscope::inputs(large),
+        "detached_names" => { let mut v = Vec::new(); for k in ["space", "lang", "id", "plain"] { for how in ["fresh", "detached", "removed_parent"] { v.push(format!("{}|{}", k, how)); } } v }
         "err_paths" => { let mut v = Vec::new(); for op in ["append", "prepend", "insert_after", "insert_before", "replace", "wrap", "unwrap", "any_append", "append_text", "append_element", "append_comment", "append_pi", "attr_node", "ns_node"] { for kind in ["text", "comment", "pi", "attr", "ns", "doc"] { for ch in ['x', '\u{e9}', '\u{20ac}', '\u{1f600}'] { for n in [1usize, 13, 39, 40, 41, 64, 200] { v.push(format!("{}|{}|{}|{}", op, kind, ch, n)); } } } } v }
         "bytes_enc" => { let mut v = Vec::new(); for e in ["utf8", "utf8bom", "utf16le", "utf16be", "utf16lebom", "utf16bebom", "latin1", "cp1252"] { for d in 0..6 { for decl in 0..2 { v.push(format!("{}|{}|{}", e, d, decl)); } } } v }
         "line_ends" => bounded::line_end_inputs(large),
@@ -431,10 +475,13 @@ fn inputs(target: &str, large: bool) -> Vec<String> {
             v.extend(strings(CRIT, if large { 4 } else { 3 }));
             v
         }
+        "html_fold" => strings(&['\u{ff1c}', '\u{ff06}', '\u{ff02}', '\u{ff1e}', '\u{ff07}', 'x', '&', '<', '"'], if large { 4 } else { 3 }),
         "strip_ws" => { let mut v = strings(&[' ', '\t', '\n', '\r', '\u{a0}', '\u{2003}', 'x'], if large { 4 } else { 3 });
             for ws in strings(&[' ', '\t', '\n', '\r'], 2) { if !ws.is_empty() { v.push(format!("A:{}", ws)); v.push(format!("B:{}", ws)); } }
             v }
-        "xml_id" => strings(&[' ', 'x', 'y', '\t'], if large { 7 } else { 5 }),
+        "xml_id" => { let mut v = strings(&[' ', 'x', 'y', '\t'], if large { 7 } else { 5 });
+            v.extend(strings(&[' ', 'x', 'T', 'N', 'R', '\u{a0}', '\u{3000}', '\u{2003}'], if large { 5 } else { 4 }));
+            v }
         _ => {
             let mut v = strings(CRIT, if large { 4 } else { 3 });
             // a character with a special meaning in front of / behind every printable ASCII character and a few others
@@ -2035,6 +2082,41 @@ fn c09_qname_default_ns() -> Option<String> {
 // namespace), and a second time - as an element outside that scope (eo) or inside it (ei), as an attribute outside
 // (ao: on a no-namespace element under r), on the first k itself (ai) or on a sibling of k inside the scope (an) -
 // met by a document-order walk before or after the first use; then create_missing_prefixes (twice)
+// (C09) names of attribute nodes that are not (or no longer) attached: the xml prefix is bound everywhere and a name in no
+// namespace needs no prefix, so the qualified name of such a node is always known
+#[allow(dead_code)]
+fn c09_detached_names(input: &str) -> Option<String> {
+    let (k, how) = input.split_once('|')?;
+    let mut xot = Xot::new();
+    let (name, want) = match k {
+        "space" => (xot.xml_space_name(), "xml:space"),
+        "id" => (xot.xml_id_name(), "xml:id"),
+        "lang" => { let ns = xot.xml_namespace(); (xot.add_name_ns("lang", ns), "xml:lang") }
+        _ => (xot.add_name("plain"), "plain"),
+    };
+    let node = match how {
+        "fresh" => xot.new_attribute_node(name, "v".to_string()),
+        _ => {
+            let root = xot.parse("<doc xmlns:p=\"urn:p\"><e/></doc>").ok()?;
+            let e = xot.first_child(xot.document_element(root).ok()?)?;
+            xot.attributes_mut(e).insert(name, "v".to_string());
+            let n = xot.attributes(e).get_node(name)?;
+            xot.detach(n).ok()?;
+            if how == "removed_parent" { xot.remove(e).ok()?; }
+            n
+        }
+    };
+    use xot::xmlname::NameStrInfo;
+    let r = std::panic::catch_unwind(std::panic::AssertUnwindSafe(|| (xot.full_name(node, name), xot.node_name_ref(node).map(|o| o.map(|r| r.full_name().to_string())))));
+    match r {
+        Err(_) => Some(format!("the name of a parentless attribute node ({}, {}) panics", want, how)),
+        Ok((full, by_ref)) => {
+            if full.as_deref().ok() != Some(want) { return Some(format!("full_name of a parentless attribute node {} ({}) is {:?}", want, how, full)); }
+            match by_ref { Ok(Some(s)) if s == want => None, other => Some(format!("node_name_ref of a parentless attribute node {} ({}) is {:?}", want, how, other)) }
+        }
+    }
+}
+
 // (C06) refused calls: every manipulation entry point called with a node that cannot be a parent / reference (a text, comment
 // or PI node with long content in one- to four-byte characters, an attribute or namespace node, the document node): the call
 // may refuse, but must not panic, and a refusal leaves the document as it was
